@@ -50,6 +50,16 @@ class JetColl(Iterable[Jet]):
     def n(self) -> int: ...  # noqa
 
 
+class Jagged(Iterable[Iterable[T]]):
+    "its type parameter is not its element type"
+    def depth(self) -> int: ...  # noqa
+
+
+class TaggedJets(Iterable[Jet], Generic[T]):
+    "an Iterable of Jet with an unrelated type parameter"
+    def tag(self) -> T: ...  # noqa
+
+
 class Box(Generic[T]):
     "derives directly from Generic"
     def get(self) -> T: ...  # noqa
@@ -86,6 +96,8 @@ class Evt:
     def box(self) -> Box[Jet]: ...  # noqa
     def info(self) -> Info: ...  # noqa
     def lead(self) -> Jet: ...  # noqa
+    def jag(self) -> Jagged[float]: ...  # noqa
+    def tj(self) -> TaggedJets[Trk]: ...  # noqa
 
 
 M = TypeVar("M")
@@ -144,6 +156,15 @@ TABLE = [
     ("e.met() > 1 > e.n()", bool), ("-e.n()", int), ("-e.met()", float), ("abs(e.met())", float),
     ("e.n() if e.ok() else e.n()", int), ("e.n() if e.ok() else e.met()", float), ("e.lead() if e.ok() else e.Jets().First()", Jet),
     ("e.Jets() if e.ok() else e.jv().items()", Iterable[Jet]), ("e.name() if e.ok() else e.name()", str),
+    # Iterable subclasses whose single type parameter is not the element type
+    ("e.jag().First()", Iterable[float]), ("e.jag().First().First()", float), ("e.jag().SelectMany(lambda r: r)", Iterable[float]), ("e.jag()[0][0]", float),
+    ("e.jag().Select(lambda r: r.Count())", Iterable[int]), ("e.jag().depth()", int),
+    ("e.tj().First()", Jet), ("e.tj().First().pt()", float), ("e.tj().Select(lambda j: j.eta())", Iterable[float]), ("e.tj().tag()", Trk),
+    # an inner lambda re-uses the name of the outer variable, which is used again afterwards
+    ("e.Jets().Select(lambda e: e.idx()).Count() + e.n()", int), ("(e.Jets().Select(lambda e: e.pt()), e.met())[1]", float),
+    ("e.Jets().Where(lambda e: e.tagged()).Count() > e.n()", bool), ("(e.Jets().Select(lambda e: e.best()).First().q(), e.lead().eta())[1]", float),
+    ("e.Jets().Select(lambda j: j.Tracks().Select(lambda j: j.q()).Count() + j.idx())", Iterable[int]),
+    ("e.Jets().Select(lambda j: (j.Tracks().Where(lambda j: j.q() > 0).Count(), j.eta())[1])", Iterable[float]),
 ]
 NTABLE = len(TABLE)
 PARSED = [ast.parse(s, mode="eval").body for s, _ in TABLE]
